@@ -135,7 +135,7 @@ pub fn jobs(tier: Tier, seed: u64) -> Vec<Job> {
     }
     Rng::new(seed).shuffle(&mut pairs);
     pairs.sort_by_key(|(g, h)| (g.w + g.x + h.w + h.x + h.s + h.t) / 3);
-    let mut out = vec![];
+    let mut out = super::c07::conformance_jobs(tier, &[0, 1, 2, 4]);
     for (i, (g, h)) in pairs.into_iter().enumerate() {
         let gen = move || PV::List(vec![PV::H(gen_h(&g, "g")), PV::H(gen_h(&h, "h")), PV::FF(gen_ff_sym(g.w, tm_, "w")), PV::FF(gen_ff_sym(g.x, tm_, "x"))]);
         out.push(case_job(crate::case!(format!("arrow src={} tgt={}", g.show(), h.show()), gen, c18_arrow, oracle, 8), cfg.clone(), per_job, i < 300 && tier == Tier::Quick));
